@@ -141,7 +141,21 @@ def streams(tier, rng, P, only=None, cases=None):
             jp = "~{%s}={%s} %s" % (name, value, " ".join(uses)); mml_ = " ".join(value if u == name else u for u in uses)
             cs.append(dict(req="compile2 %s %s" % (hx(jp), hx(mml_)), jp=jp, mml=mml_, key="a%d" % i, show="%s  vs  %s" % (jp, mml_)))
         return cs
-    mcases = cases if (cases and only == "midi") else (mk_midi() + mk_midi_ascii())
+    def mk_midi_syn():
+        # words the command reference documents as another word's synonym (`| クレッシェンド | 大きく(音長),(最終値)//… |`): same MIDI as that word
+        import re as _re, os as _os
+        cs = []
+        try: doc = open(_os.path.join(P.srcdir, "command.md"), encoding="utf-8").read()
+        except Exception: doc = ""
+        names = set(n_ for n_, _ in vocab)
+        for mo in _re.finditer(r"^\| (\S+) \| (\S+?)\(音長\),\(最終値\)//", doc, _re.M):
+            w, canon = mo.group(1), mo.group(2)
+            if w != canon and w in names and canon in names:
+                for args in ("(2,127) c d", "(1,30) c", "2,100 c d e"):
+                    a, b = "l4 c " + w + args, "l4 c " + canon + args
+                    cs.append(dict(req="compile2 %s %s" % (hx(a), hx(b)), jp=a, mml=b, key="syn-" + w + args[:3], show="%s  vs  %s" % (a, b)))
+        return cs
+    mcases = cases if (cases and only == "midi") else (mk_midi() + mk_midi_ascii() + mk_midi_syn())
     # expected transliteration comes from the Lean specification: two-phase (first ask the driver)
     from ..core import run_driver
     if mcases and mcases[0].get("req") is None:
@@ -154,7 +168,8 @@ def streams(tier, rng, P, only=None, cases=None):
     def midi_judge(c, impl, m):
         st, f = impl
         if st != "ok": return None
-        if f["bin1"] != f["bin2"]: return ("violation", "Japanese notation and its transliteration compile to different MIDI")
+        if f["bin1"] != f["bin2"]:
+            return ("violation", "a word and the word the reference documents it as compile to different MIDI" if c["key"].startswith("syn-") else "Japanese notation and its transliteration compile to different MIDI")
         return None
     s4 = Stream("midi", mcases, lambda c, st, f: [], midi_judge, lambda c, i, m: i[1].get("bin1"), "piece vs transliteration", timeout_case=20.0)
     return [s for s in (s1, s2, s3, s4) if only in (None, s.name)]
